@@ -636,6 +636,26 @@ def m_factorial(x):
     return SymInt(f(z))
 
 
+def m_mathpow(x, y):
+    """math.pow: a double.  Integer base and small integer exponent: the correctly rounded value of the exact power (exact
+    below 2^53, otherwise fl); anything else is an uninterpreted value with pow's domain contract."""
+    zx, zy = zint(x), zint(y)
+    if zx is not None and zy is not None and not isinstance(x, (SymFloat, float)) and not isinstance(y, (SymFloat, float)):
+        k = concretize_int(y, -8, 64, 'math.pow exponent') if symbolic(y) else int(y)
+        if k >= 0:
+            r = z3.IntVal(1)
+            for _ in range(k):
+                r = r * zx
+            return _int_to_float(z3.simplify(r))
+    rx, ry = _realarg(x, 'pow'), _realarg(y, 'pow')
+    if SymBool(z3.And(rx == 0, ry < 0)):
+        raise ValueError('math domain error')
+    if SymBool(z3.And(rx < 0, z3.Not(z3.IsInt(ry)))):
+        raise ValueError('math domain error')
+    _log_math_call('pow', [rx, ry])
+    return SymFloat(r=uf_real('pow', rx, ry))
+
+
 def m_log(x, base=None):
     rx = _realarg(x, 'log')
     if not SymBool(rx > 0):
@@ -695,6 +715,9 @@ def sym_setitem(o, key, value):
     o[key] = value
 
 
+_DELETED = object()
+
+
 def dict_lookup(d, key, default, has_default):
     side = _side(d)
     if side:
@@ -703,6 +726,10 @@ def dict_lookup(d, key, default, has_default):
             if r is NotImplemented:
                 r = False
             if r is not False and r:
+                if v is _DELETED:
+                    if has_default:
+                        return default
+                    raise KeyError('deleted key')
                 return v
     if not symbolic(key):
         try:
@@ -883,7 +910,18 @@ def _dict_method(f, a, kw):
             return dict_lookup(d, a[0], a[1] if len(a) > 1 else None, True)
         if name == '__getitem__':
             return dict_lookup(d, a[0], None, False)
-        if name in ('keys', 'values', 'items', '__iter__', '__len__', 'pop', 'setdefault', '__delitem__', 'update', 'copy'):
+        if name == 'pop':
+            try:
+                v = dict_lookup(d, a[0], None, False)
+            except KeyError:
+                if len(a) > 1:
+                    return a[1]
+                raise
+            _side(d, True).append((a[0], _DELETED))
+            if not symbolic(a[0]):
+                d.pop(a[0], None)
+            return v
+        if name in ('keys', 'values', 'items', '__iter__', '__len__', 'setdefault', '__delitem__', 'update', 'copy'):
             raise Unmodelled('dict.%s on a dict holding symbolic keys' % name)
     if name == 'get' and a and symbolic(a[0]):
         return dict_lookup(d, a[0], a[1] if len(a) > 1 else None, True)
@@ -891,7 +929,16 @@ def _dict_method(f, a, kw):
         return dict_lookup(d, a[0], None, False)
     if name in ('__contains__',) and symbolic(a[0]):
         return _sym_in(a[0], d)
-    if name in ('pop', 'setdefault', '__setitem__', '__delitem__') and a and symbolic(a[0]):
+    if name == 'pop' and a and symbolic(a[0]):
+        try:
+            v = dict_lookup(d, a[0], None, False)
+        except KeyError:
+            if len(a) > 1:
+                return a[1]
+            raise
+        _side(d, True).append((a[0], _DELETED))
+        return v
+    if name in ('setdefault', '__setitem__', '__delitem__') and a and symbolic(a[0]):
         raise Unmodelled('dict.%s with symbolic key' % name)
     return f(*a, **kw)
 
@@ -985,7 +1032,7 @@ MODELS = {
     chr: m_chr, ord: m_ord, hex: m_hex, round: m_round, complex: m_complex, hash: m_hash, range: m_range,
     divmod: m_divmod, pow: m_pow, format: m_format,
     _math.ceil: m_ceil, _math.floor: m_floor, _math.trunc: m_trunc, _math.isnan: m_isnan, _math.isinf: m_isinf,
-    _math.factorial: m_factorial, _math.log: m_log,
+    _math.factorial: m_factorial, _math.log: m_log, _math.pow: m_mathpow,
     _math.sqrt: _math_stub('sqrt', lambda x: x >= 0, facts=lambda v, x: z3.And(v >= 0, (v == 0) == (x == 0), z3.Implies(x >= 1, v >= 1), z3.Implies(x >= 1, v <= x),
                                               v * v <= x * (1 + z3.RealVal(1) / 2 ** 50), v * v >= x * (1 - z3.RealVal(1) / 2 ** 50))),
     _math.sin: _math_stub('sin', facts=lambda v, x: z3.And(v >= -1, v <= 1, (v == 0) == (x == 0))),
